@@ -78,6 +78,12 @@ def main(replay=None):
         c = hc.make_case(ck.rng, lv, (kd,))
         items.append(("model %d (%s)" % (n, c["model"]["info"]["topology"]), c, [motion(ck.rng, 2 * c["R"]) + (1.0, 1.0) for _ in range(nmot)]))
     recs = hc.run_pairs(ck, hb, items, tol=1e-9, stats=stats)
+    # 2b. the decision models of Geom/Decisions.v (float instance, extracted) against Geometry::domain / dist_point_geom,
+    #     on the generated models and on their first moved copy
+    dm_cases = []
+    for label, c, trs in items:
+        dm_cases.append(c); R, t, s, k = trs[0]; dm_cases.append(hc.transform_case(c, R, t, s, k))
+    dm = hc.check_decision_models(ck, hb, dm_cases)
     # 3. kernels on moved arguments
     kdist, kbad = hc.run_kernel_metamorphic(ck, hb, 3000 if quick else 30000, lambda rng, size: motion(rng, 2 * size) + (1.0,), "moved")
     topo = {}
@@ -89,8 +95,9 @@ def main(replay=None):
                   samples=[dict(label=r["label"], cond=r.get("cond"), levels=r["levels"]) for r in recs[:3]],
                   op_distribution=dict(topologies=topo, kernels=kdist), measured_rounding_level=stats.get("level", {}),
                   singular_pairs_compared_at_operator_level=stats.get("singular", 0), nearest_triangle_ties=stats.get("nearest_ties", 0),
-                  witnesses=stats.get("witnesses", []), kernel_mismatches=kbad, traces_validated_against_impl=len(recs) + sum(kdist.values()))
-    ck.cov["trusted_base"] += ["C++ harness harness/h_c02.cpp (calls HeadMat, invert, DipSourceMat, Head2EEGMat, Head2ECoGMat, Head2MEGMat, DipSource2MEGMat, Surf2VolMat, DipSource2InternalPotMat, EITSourceMat, SurfSourceMat, SurfSource2MEGMat and the Gain* classes of the rebuilt working tree)",
+                  witnesses=stats.get("witnesses", []), kernel_mismatches=kbad, decision_model_correspondence=dm, traces_validated_against_impl=len(recs) + sum(kdist.values()))
+    ck.cov["trusted_base"] += ["extraction (ExtrOcamlBasic only) of Geom/RunC02.v and the OCaml float record, for the decision-model correspondence",
+                               "C++ harness harness/h_c02.cpp (calls HeadMat, invert, DipSourceMat, Head2EEGMat, Head2ECoGMat, Head2MEGMat, DipSource2MEGMat, Surf2VolMat, DipSource2InternalPotMat, EITSourceMat, SurfSourceMat, SurfSource2MEGMat and the Gain* classes of the rebuilt working tree)",
                                "Python generators lib/models.py, lib/headcases.py (models written at 17 significant digits)"]
     ck.assumptions += ["rounding is measured, not proved: tolerance 1e-9 relative Frobenius on gains (measured level reported in coverage.measured_rounding_level)",
                        "models whose head matrix is numerically singular (eigenvalue ratio > 1e12) are compared operator by operator instead of by gains"]
